@@ -78,6 +78,43 @@ def make(rng, tier):
     return scs
 
 
+def special(tier):
+    """two endings no ordinary client produces: a panic inside the storage operation of a command, and accept() failing for want of
+    file descriptors while a client waits in the queue"""
+    scs = []
+    GETK = b"*2\r\n$3\r\nGET\r\n$1\r\nk\r\n".hex()
+    SETK = b"*3\r\n$3\r\nSET\r\n$1\r\nk\r\n$1\r\nv\r\n".hex()
+    for j in range({"quick": 2, "thorough": 10}[tier]):
+        mx = 2 + j % 2
+        ops = ["conn a", "send a %s" % SETK, "recv a 5 3000", "close a", "sleep 50", "panicany get:after_lookup 0"]
+        expect = []
+        for i in range(mx + 1):
+            ops += ["conn p%d" % i, "send p%d %s" % (i, GETK), "recv p%d eof 3000" % i, "close p%d" % i]
+        ops += ["nopoints", "sleep 100"]
+        for k in range(mx):
+            ops.append("tryconn z%d 1500" % k)
+            expect.append((len(ops) - 1, "served", "after %d connections ended by a panic inside the storage operation only %d of %d can be served" % (mx + 1, k, mx)))
+        ops.append("tryconn zz 350")
+        expect.append((len(ops) - 1, "notserved", "more than %d connections are served" % mx))
+        sc = N.Scenario("panic%d" % j, "maxconn=%d conc=16" % mx, ops)
+        sc.expect, sc.mx = expect, mx
+        scs.append(sc)
+    # accept() fails (EMFILE) while a client waits; afterwards that client and the full number must be served
+    for j in range({"quick": 1, "thorough": 4}[tier]):
+        mx = 2
+        ops = ["presock q", "presock z0", "presock z1", "presock zz", "fdexhaust 400", "sleep 150", "connsock q", "sleep 500",
+               "send q %s" % GETK, "recv q 5 3000"]
+        expect = [(len(ops) - 1, "ok:5:242d310d0a", "the client that connected while accept() was failing for want of descriptors is never served")]
+        ops += ["close q", "sleep 100", "connsock z0", "send z0 %s" % GETK, "recv z0 5 3000"]
+        expect.append((len(ops) - 1, "ok:5:242d310d0a", "after failed accepts only 0 of 2 connections can be served: slots leaked"))
+        ops += ["connsock z1", "send z1 %s" % GETK, "recv z1 5 3000"]
+        expect.append((len(ops) - 1, "ok:5:242d310d0a", "after failed accepts only 1 of 2 connections can be served: a slot leaked"))
+        sc = N.Scenario("emfile%d" % j, "maxconn=%d backoffmax=4000" % mx, ops)
+        sc.expect, sc.mx = expect, mx
+        scs.append(sc)
+    return scs
+
+
 def main(tier, seed):
     rep = Report("C15", tier, seed)
     rng = Rng(seed)
@@ -94,7 +131,7 @@ def main(tier, seed):
         log(out[-3000:])
         rep.coverage.update({"checker_cmd": "make -C coq Props/C15.vo", "trusted_base": TRUSTED})
         return rep.finish()
-    scs = make(rng, tier)
+    scs = make(rng, tier) + special(tier)
     died = N.run_scenarios(scs, procs=8)
     nobs, endings = 0, {}
     for sc in scs:
@@ -120,7 +157,8 @@ def main(tier, seed):
         "rule": "scenario: fill the server (max_connections 1-3), verify one more connection is NOT served, end a served "
                 "connection in one of six ways (client close, garbage, half-sent frame, wrong arity, non-UTF-8 key, half-close), "
                 "verify the waiting connection IS then served, repeat 2-5 times, end everything, verify the full number is served "
-                "again and one more is not; served = the reply to a probe GET arrives within the timeout",
+                "again and one more is not; served = the reply to a probe GET arrives within the timeout; plus connections ended by an injected "
+                "panic inside the storage operation, and accept() failing with EMFILE while a client waits in the queue",
         "samples": [{"max": scs[0].mx, "ops": scs[0].ops[:12], "out": (scs[0].out or [])[:12]}],
         "proof": {"file": "coq/Props/C15.v", "theorems": pr["theorems"], "axioms": pr["axioms"]},
     })
